@@ -64,6 +64,18 @@ def visit (o : Opts) (es : List Entry) (fuel : Nat) (e : Entry) (real shown : St
     else
       if (o.file && !isDir) || (o.dir && isDir) then [shown] else []
 
+/-- Where a root given with `.`, `..`, doubled or trailing separators leads (through real
+    directories: `..` is taken lexically), and how it is printed: as given, without trailing
+    separators and without one leading `./`. -/
+def resolveRoot (root : Str) : Str × Str :=
+  let comps := (splitOn 47 root).filter fun c => !c.isEmpty && c != [46]
+  let path := comps.foldl (fun (acc : Str) c => if c == [46, 46] then parentOf acc else if acc.isEmpty then c else acc ++ [47] ++ c) []
+  let trimmed := (root.reverse.dropWhile (· == 47)).reverse
+  let shown := match trimmed with
+    | 46 :: 47 :: rest => rest
+    | t => t
+  (path, shown)
+
 /-- `readFiles` for one root (`[46]` = "." = the tree root). -/
 def walk (o : Opts) (es : List Entry) (root : Str) : List Str :=
   if root == [46] then
@@ -71,7 +83,19 @@ def walk (o : Opts) (es : List Entry) (root : Str) : List Str :=
   else
     match es.find? (·.path == root) with
     | some e => visit o es (es.length + 2) e e.path root
-    | none => []
+    | none =>
+      let (path, shown) := resolveRoot root
+      if path.isEmpty then
+        -- back at the tree root under another name: its entries are printed below that name
+        if pruned o shown then []
+        else
+          (if o.dir then [shown ++ [47]] else []) ++
+          (es.filter fun c => parentOf c.path == [] && !c.path.isEmpty).flatMap fun c =>
+            visit o es (es.length + 2) c c.path (shown ++ [47] ++ baseOf c.path)
+      else
+        match es.find? (·.path == path) with
+        | some e => visit o es (es.length + 2) e e.path shown
+        | none => []
 
 /-- `readFiles` for one root given relative to the working directory `cwd` (a directory of the
     tree, `[]` = the tree root): `.` lists the working directory without prefix, `..` its parent
